@@ -1,11 +1,11 @@
 CONSTANTS
   N = 3
   AMax = 1
-  AMaxCG = 2
+  AMaxCG = 1
   KMax = 3
   Wide = FALSE
   BsBound = 20
-  Methods = {"cg", "bicgstab.right", "richardson", "gmres.right.K", "gmres.left.1"}
+  Methods = {"cg", "bicgstab.right", "gmres.right.K"}
 INIT Init
 NEXT Next
 INVARIANTS ProgMatchesRef TerminatesAtN CarriedResidual GmresMonotone
